@@ -25,7 +25,8 @@ CONFIG = {
                 'C12_csv is proved with hypotheses added to C12_csv_statement (each forced by a counterexample on the model, listed at '
                 'the head of Props/C12Csv.lean): rows have a feature column and non-empty label / weight cells (a table row always has a '
                 'label), label_column != weight_column, no NaN weight, pads cover the cells, the cell conversion skips leading blanks '
-                'as strtof does, the delimiter is not NUL; and (A5) with a white-space delimiter the table has no empty cell'],
+                'as strtof does, the delimiter is not NUL.  (A5), no empty cell with a white-space delimiter, was finding C12-F3: '
+                'repaired by fixes/C12-3.diff, the hypothesis is gone'],
 }
 
 MANIFEST = {
